@@ -121,13 +121,21 @@ def run(P, chk, tier):
             sites.append((f, node, xexpr, "write", "write users[%s].%s" % (xk, fld)))
         for b, c in f.calls():
             # (c) part of users[x] handed to a callee
-            extw = {ir.path_str(p) for p, _ in P.extern_writes(c) if p} if P.callee(c, f) is None and c.get("fn") else set()
-            for a in c.get("a", ()):
+            tgt = P.callee(c, f)
+            extw = {ir.path_str(p) for p, _ in P.extern_writes(c) if p} if tgt is None and c.get("fn") else set()
+            for ai, a in enumerate(c.get("a", ())):
                 if sk(a).get("t", {}).get("k") not in ("ptr", "array"):
                     continue
                 pth = ir.pointee_path(a)
                 ua = C.users_access(pth)
                 if ua is None or (pth and ir.path_str(pth) in extw) or ua[1] in NONPRIV:
+                    continue
+                # a callee that only reads what it is handed (memcmp, a comparison helper) has no effect on the session;
+                # a library function that writes it was counted as a write site above
+                if tgt is None and c.get("fn") in guard.READERS:
+                    continue
+                if tgt is not None and not any(d[0] == "prel" and d[1] == ai for d in P.modset(tgt)) and \
+                        not any(d[0] in ("unknown",) for d in P.modset(tgt)):
                     continue
                 sites.append((f, c, C.users_index_expr(a), "arg", "pass %s to %s()" % (pp(a), c.get("fn") or "?")))
             # (d) tun write
@@ -160,9 +168,9 @@ def run(P, chk, tier):
             return "authenticated"
         if kind in ("write", "arg", "call") and form_holder(d, xk):
             return "occupied holder (R7)"
-        if kind == "write" and form_fresh(d, xk):
+        if kind in ("write", "arg") and form_fresh(d, xk):
             return "fresh slot"
-        if kind == "write" and form_free(d, xk):
+        if kind in ("write", "arg") and form_free(d, xk):
             return "free slot (allocator)"
         return None
     req = C.check_obligations(P, E, chk, r2, reach, sites, form_ok, "authenticated")
